@@ -1055,3 +1055,40 @@ pub fn g_battery_loaded(rng: &mut Rng) -> Pos {
     }
     g_battery(rng)
 }
+
+
+/// The position BEFORE a double pawn step after which the opponent has no legal move although an en-passant
+/// capture of that pawn is pseudo-legal (the capturer is pinned, or the capture does not lift the check):
+/// checkmate (mostly) or stalemate delivered by a double step. The terminal test of that node runs right
+/// after move generation has tried — and refused — the en-passant capture on a board with the pawn removed,
+/// so anything remembered from that trial (checkers, pins) is about a different board.
+/// Returns (position before the step, the step in UCI notation).
+pub fn g_ep_terminal(rng: &mut Rng) -> Option<(Pos, String)> {
+    for _ in 0..60_000 {
+        let p = g_ep(rng);
+        if !p.legal_moves().is_empty() {
+            continue;
+        }
+        // un-push: the pawn that just made the double step goes back to its starting square
+        let them = p.stm ^ 1;
+        let (from_rank, to_rank) = if them == WHITE { (1, 3) } else { (6, 4) };
+        let f = file_of(p.ep);
+        let mut q = p.clone();
+        if q.sq[sq(f, to_rank) as usize] != pc(them, P) || q.sq[sq(f, from_rank) as usize] != 0 {
+            continue;
+        }
+        q.sq[sq(f, to_rank) as usize] = 0;
+        q.sq[sq(f, from_rank) as usize] = pc(them, P);
+        q.stm = them;
+        q.ep = NO_EP;
+        if q.validity().is_err() {
+            continue;
+        }
+        let u = format!("{}{}", sq_name(sq(f, from_rank)), sq_name(sq(f, to_rank)));
+        if q.find_uci(&u).is_none() {
+            continue;
+        }
+        return Some((q, u));
+    }
+    None
+}
